@@ -12,6 +12,8 @@
 -- models: pkg/kgo/broker.go:brokerCxn.sasl
 -- models: pkg/kgo/broker.go:brokerVersions.maxVersion
 -- models: pkg/kgo/broker.go:brokerVersions.minVersion
+-- models: pkg/kgo/broker.go:broker.storeVersions
+-- models: pkg/kgo/broker.go:broker.loadVersions
 -- models: pkg/kversion/kversion.go:Versions.LookupMaxKeyVersion
 -- models: pkg/kversion/kversion.go:Versions.HasKey
 -- models: pkg/kversion/kversion.go:Versions.SetMaxKeyVersion
@@ -199,6 +201,81 @@ key is not advertised). -/
 def saslAuthVersion (bv : BrokerVersions) : Option Int :=
   if saslHandshakeVersion bv = some 1 then some (bv.maxVersion 36) else none
 
+/-! ### the table of one broker object across its connections
+
+`broker.versions` is one `atomic.Value` per broker object. Every new connection of the object — whichever of
+the five (`cxnNormal`, `cxnProduce`, `cxnFetch`, `cxnGroup`, `cxnSlow`), first use or reconnect — runs
+`brokerCxn.init`, whose `requestAPIVersions` ends in `cxn.b.storeVersions(v)`; `handleReq` reads
+`b.loadVersions()` after `loadConnection` returned, for every request of the object whichever connection it
+uses. `handleReqs` runs the requests of one broker object one after the other, so connects and clamps of
+one object form a sequence. -/
+
+/-- `broker.versions`: `none` = nothing stored yet (`loadVersions()` returns nil). -/
+abbrev StoredV := Option BrokerVersions
+
+/-- `func (b *broker) storeVersions(v *brokerVersions) { b.versions.Store(v) }`: whatever was stored is replaced. -/
+def storeVersions (_old : StoredV) (v : BrokerVersions) : StoredV := some v
+
+/-- `brokerCxn.init` of a new connection whose ApiVersions request (when one is issued) is answered with the key
+table `resp`: the stored table afterwards, and whether `init` succeeded.
+* `maxVersions == nil || maxVersions.HasKey(18)` → `requestAPIVersions`: `len(resp.ApiKeys) == 0` is an error
+  returned before anything is stored; otherwise the loaded table is stored;
+* else `if cxn.b.loadVersions() == nil { cxn.b.storeVersions(newBrokerVersions(0)) }`. -/
+def initCxn (umax : Option Versions) (s : StoredV) (resp : List ApiKey) : StoredV × Bool :=
+  if issuesApiVersions umax then
+    if resp.isEmpty then (s, false) else (storeVersions s (load resp), true)
+  else
+    (if s.isNone then storeVersions s BrokerVersions.empty else s, true)
+
+/-- What `handleReq` is given besides the configuration and the stored table. -/
+structure Req where
+  key : Int
+  /-- `req.MaxVersion()` -/
+  cmax : Int
+  pin : Option Pin := none
+deriving Repr
+
+/-- One step of a broker object: `loadConnection` opened a new connection (of any class) whose ApiVersions was
+answered with `resp`, or `handleReq` reached `v := b.loadVersions()` for a request. -/
+inductive Ev where
+  | connect (resp : List ApiKey)
+  | request (r : Req)
+deriving Repr
+
+inductive EvOut where
+  | connected
+  /-- `init` returned an error: the connection dies, `loadConnection` fails, the request is promised the error -/
+  | connectFailed
+  | clamped (o : Out)
+  /-- `v.maxVersion(0)` on a nil `*brokerVersions`: the Go code panics -/
+  | nilVersions
+deriving DecidableEq, Repr
+
+def stepStored (umax : Option Versions) (s : StoredV) : Ev → StoredV
+  | .connect resp => (initCxn umax s resp).1
+  | .request _ => s
+
+/-- what the clamp reads for a request of a client configured with `umax` / `umin` when `bv` is stored -/
+def Req.toIn (r : Req) (bv : BrokerVersions) (umax umin : Option Versions) : In :=
+  { key := r.key, cmax := r.cmax, pin := r.pin, bv := bv, umax := umax, umin := umin }
+
+def stepOut (umax umin : Option Versions) (s : StoredV) : Ev → EvOut
+  | .connect resp => if (initCxn umax s resp).2 then .connected else .connectFailed
+  | .request r =>
+    match s with
+    | none => .nilVersions
+    | some bv => .clamped (clamp (r.toIn bv umax umin))
+
+/-- The stored table after a sequence of steps. -/
+def storedAfter (umax : Option Versions) : StoredV → List Ev → StoredV
+  | s, [] => s
+  | s, e :: es => storedAfter umax (stepStored umax s e) es
+
+/-- The outcomes of a sequence of steps, one per step. -/
+def runEvs (umax umin : Option Versions) : StoredV → List Ev → List EvOut
+  | _, [] => []
+  | s, e :: es => stepOut umax umin s e :: runEvs umax umin (stepStored umax s e) es
+
 /-! ### pin schedules of the sharders (`client.go`) that the harness reaches through `cl.Request` -/
 
 /-- A request shape is tried with the first pin; on `errBrokerTooOld` it is split and reissued with the
@@ -284,6 +361,52 @@ def okSchedule : List Bounds → Option Int → Bool
   | [], o => o.isNone
   | b :: bs, o => if noneAllowed b then okSchedule bs o else ok b o
 
+/-! #### several connections: what one broker object was told, and what it wrote, in wire order -/
+
+/-- One observation at the broker side of the connections of one broker object. -/
+inductive Obs where
+  /-- an ApiVersions response with this (non-empty) key table was delivered on a new connection -/
+  | adv (table : List ApiKey)
+  /-- a request frame with header version `v` was written, on whichever connection -/
+  | wrote (key cmax : Int) (pinMax pinMin : Option Int) (umax umin : User) (v : Int)
+  /-- a request failed and nothing was written -/
+  | failed (key cmax : Int) (pinMax pinMin : Option Int) (umax umin : User)
+deriving Repr
+
+/-- The most recent advertisement in a history given newest first. -/
+def latestAdv : List Obs → Option (List ApiKey)
+  | [] => none
+  | .adv t :: _ => some t
+  | _ :: rest => latestAdv rest
+
+/-- What a key table says of a key: its last element for the key (a table is a map; Kafka sends each key once). -/
+def rangeIn (table : List ApiKey) (k : Int) : Broker :=
+  match table.reverse.find? (fun e => e.key == k) with
+  | some e => .range e.min e.max
+  | none => .missing
+
+/-- "The broker's advertised range" at a point of the history (newest first): that of the MOST RECENT
+ApiVersions response the broker object received; nothing known when there was none. -/
+def brokerAt (seenRev : List Obs) (k : Int) : Broker :=
+  match latestAdv seenRev with
+  | none => .noApi
+  | some t => rangeIn t k
+
+def obsOk (seenRev : List Obs) : Obs → Bool
+  | .adv _ => true
+  | .wrote k c pM pm um un v =>
+    ok { cmax := c, pinMax := pM, pinMin := pm, broker := brokerAt seenRev k, umax := um, umin := un } (some v)
+  | .failed k c pM pm um un =>
+    ok { cmax := c, pinMax := pM, pinMin := pm, broker := brokerAt seenRev k, umax := um, umin := un } none
+
+/-- The property over a whole history: every written request, and every failed one, is judged against
+the advertisement that was the most recent one when it happened. -/
+def traceOkFrom (seenRev : List Obs) : List Obs → Bool
+  | [] => true
+  | o :: rest => obsOk seenRev o && traceOkFrom (o :: seenRev) rest
+
+def traceOk (os : List Obs) : Bool := traceOkFrom [] os
+
 end Spec
 
 /-! ### how the Spec sees the model's input -/
@@ -319,5 +442,21 @@ def boundsOf (i : In) (table : Option BrokerVersions) : Spec.Bounds :=
 def Out.written : Out → Option Int
   | .ok v => some v
   | _ => none
+
+/-- What the broker side sees of one step of a broker object (nothing for a failed connect, for a connect of a
+client that issues no ApiVersions, and for the panic). -/
+def obsOf (umax umin : Option Versions) (e : Ev) (o : EvOut) : List Spec.Obs :=
+  match e, o with
+  | .connect resp, .connected => if issuesApiVersions umax then [.adv resp] else []
+  | .request r, .clamped (.ok v) =>
+    [.wrote r.key r.cmax (pinMaxO r.pin) (pinMinO r.pin) (specUser umax r.key) (specUser umin r.key) v]
+  | .request r, .clamped _ =>
+    [.failed r.key r.cmax (pinMaxO r.pin) (pinMinO r.pin) (specUser umax r.key) (specUser umin r.key)]
+  | _, _ => []
+
+/-- The history the broker side sees of a run. -/
+def obsRun (umax umin : Option Versions) : StoredV → List Ev → List Spec.Obs
+  | _, [] => []
+  | s, e :: es => obsOf umax umin e (stepOut umax umin s e) ++ obsRun umax umin (stepStored umax s e) es
 
 end Model.C21
